@@ -135,7 +135,7 @@ def warped(vid: int, sp, frame, scale: float, odd=None) -> List[float]:
     """odd = None: every lattice line is stretched differently (the four parallel edges of a block all differ);
     odd = (vertex id, displacement): a product grid with ONE displaced vertex, so that in the blocks around it exactly one
     of the four parallel edges differs - in any of the four positions of the axis' wire order, the last included"""
-    x, y, z = vid % 4, (vid // 4) % 4, vid // 16
+    x, y, z = vid % 5, (vid // 5) % 5, vid // 25
     if odd is None:
         p = [sp[0][x] * (1 + 0.10 * y + 0.07 * z), sp[1][y] * (1 + 0.08 * x + 0.05 * z), sp[2][z] * (1 + 0.06 * x + 0.09 * y)]
     else:
@@ -189,7 +189,7 @@ def lattice_configs(ctx: Ctx, rng: random.Random, limit: int) -> None:
         sp = []
         for _ in range(3):
             acc, row = 0.0, [0.0]
-            for _k in range(3):
+            for _k in range(4):
                 acc += rng.uniform(0.8, 1.7)
                 row.append(acc)
             sp.append(row)
